@@ -34,14 +34,14 @@ type Program struct {
 	// functions defined in the spec overlay (reference implementations used by E5)
 	SpecFuncs []*ssa.Function
 	// reachability
-	RPLib  map[*ssa.Function]bool // from MakeDecision / FetchParameters
-	RPHttp map[*ssa.Function]bool // from decideHandler/functionsHandler (+ RPLib)
-	Inits  map[*ssa.Function]bool // package initialisers and what only they reach
-	Overlay map[string][]byte
-	SpecByName bool   // fixtures: reference implementations are recognised by their Spec_ name, not by the overlay file
-	Drifted []string // reference functions dropped because they no longer type-check
-	specIndex map[string]*ssa.Function
-	codeIndex map[string]*ssa.Function
+	RPLib      map[*ssa.Function]bool // from MakeDecision / FetchParameters
+	RPHttp     map[*ssa.Function]bool // from decideHandler/functionsHandler (+ RPLib)
+	Inits      map[*ssa.Function]bool // package initialisers and what only they reach
+	Overlay    map[string][]byte
+	SpecByName bool     // fixtures: reference implementations are recognised by their Spec_ name, not by the overlay file
+	Drifted    []string // reference functions dropped because they no longer type-check
+	specIndex  map[string]*ssa.Function
+	codeIndex  map[string]*ssa.Function
 }
 
 func repoEnv() []string {
